@@ -45,6 +45,7 @@ static int ntoks;
 static char wid[128] = "-";
 static char tags[MAXW + 2];	/* attribute of token i is &tags[i] */
 static int x_sent, x_fo, x_nd, x_nt, x_rc, x_have_trees, x_have_repairs;
+static int x_rcost[16][16];	/* minimal simple recovery cost by error token and recovery_match, -1 unknown */
 static char *exp_t[MAXEXP];
 static char exp_min[MAXEXP];
 static int n_exp;
@@ -557,6 +558,9 @@ static void do_parse (int la, int one, int cost, int rec, int match, int dbg, in
 	      if (c->ia != (c->ign < ntoks ? (void *) &tags[c->ign] : NULL)) mismatch_i ("first-ignored attribute does not belong to the token", c->ign, c->ign);
 	      if (c->ra != (c->rec < ntoks ? (void *) &tags[c->rec] : NULL)) mismatch_i ("first-recovered attribute does not belong to the token", c->rec, c->rec);
 	      total_ign += c->rec - c->ign;
+	      if (i == 0 && match < 16 && c->err < 16 && x_rcost[c->err][match < 1 ? 1 : match] >= 0
+		  && c->rec - c->ign > x_rcost[c->err][match < 1 ? 1 : match])
+		mismatch_i ("ignored tokens of the first recovery exceed the cheapest simple recovery", c->rec - c->ign, x_rcost[c->err][match < 1 ? 1 : match]);
 	    }
 	}
     }
@@ -741,6 +745,7 @@ static void clear_expect (void)
   for (i = 0; i < n_exp_r; i++) __real_free (exp_r[i]);
   n_exp = n_exp_r = 0;
   x_sent = -1; x_fo = -1; x_nd = -1; x_nt = -1; x_rc = 0; x_have_trees = 0; x_have_repairs = 0;
+  for (i = 0; i < 256; i++) x_rcost[i / 16][i % 16] = -1;
 }
 
 int main (int argc, char **argv)
@@ -836,6 +841,11 @@ int main (int argc, char **argv)
 	      else if (strcmp (kv, "rc") == 0) x_rc = v;
 	      else if (strcmp (kv, "trees") == 0) x_have_trees = v;
 	      else if (strcmp (kv, "repairs") == 0) x_have_repairs = v;
+	      else if (kv[0] == 'r' && kv[1] == 'c' && isdigit ((unsigned char) kv[2]) && strchr (kv, '_') != NULL)
+		{
+		  int k = atoi (kv + 2), m = atoi (strchr (kv, '_') + 1);
+		  if (k >= 0 && k < 16 && m >= 0 && m < 16) x_rcost[k][m] = v;
+		}
 	    }
 	}
       else if (strcmp (tok, "t") == 0 || strcmp (tok, "m") == 0)
